@@ -67,6 +67,8 @@ def swarm(seed, tier, profile="general"):
             if r.coin(0.3):
                 wts[k] = 0.0
         cfg["cond_max"] = 10 ** r.uniform(0.5, 3.5)
+        # the law must hold at every natural scale (tolerances are relative): tiny and large covariances
+        cfg["scale"] = 10 ** r.uniform(-9, 3) if r.coin(0.5) else 1.0
     cfg["weights"] = wts
     roots = []
     for grp, p in ((FACTOR_ROOTS, 0.8), (MEASURE_ROOTS, 0.8), (PDF_ROOTS, 0.8), (COND_ROOTS, 0.6)):
@@ -159,7 +161,7 @@ class Gen:
             kw = {"Sigma": r.spd(1, Dy, cfg["cond_max"]), "num_cond_dim": int(Dx), "num_control_dim": int(Du),
                   "W": r.normal((Du, Dy * (Dx + 1)), 0.8), "c": r.normal((Dy * (Dx + 1),), 0.5)}
             return {"op": "root", "cls": cls, "kw": kw, "u": r.normal((Ru, Du), 1.0), "variant": "nn", "out": self.nid()}
-        kw, variant = model.gen_root(r, cls, R, D, Dx=Dx, cond_max=cfg["cond_max"])
+        kw, variant = model.gen_root(r, cls, R, D, Dx=Dx, cond_max=cfg["cond_max"], scale=cfg.get("scale", 1.0))
         return {"op": "root", "cls": cls, "kw": kw, "variant": variant, "out": self.nid()}
 
     def g_slice(self):
